@@ -15,7 +15,7 @@ RULE = ("seeded passive hot-water meshes (1-2 pt feeders, meshes with reverse fl
 ASSUMPTIONS = ["a thermal stage that refuses a net (a t/pt grid receiving flow) is counted as not comparable"]
 CONFIG = {"quick": {"shards": 8, "timeout_s": 600, "cases": 360},
           "thorough": {"shards": 16, "timeout_s": 3000, "cases": 8000}}
-REQUIRED_COUNTERS = ["cooling_sections_forward", "cooling_sections_reverse", "cooling_multi_section_pipes",
+REQUIRED_COUNTERS = ["runs_with_thermally_unsupplied_part", "cooling_sections_forward", "cooling_sections_reverse", "cooling_multi_section_pipes",
                      "mixing_junctions_2_inflows", "mixing_junctions_3plus_inflows", "fixed_feed_temperatures",
                      "pump_outlet_temperatures", "temperature_bounds_checked", "runs_sequential", "runs_bidirectional",
                      "runs_heat", "pipe_outlet_vs_last_section"]
@@ -36,6 +36,8 @@ def make(case):
     else:
         modes = netgen.CONSUMER_MODES if case["mode"] == "bidirectional" else ["MF_DT", "MF_TR", "QE_MF"]
         spec = netgen.gen_heating(rng, modes=modes, u_max=8.0)
+        if rng.random() < 0.3:
+            netgen.add_cold_line(spec, rng)      # hydraulically supplied, no temperature source: no part of the thermal calculation
     opts = {"use_numba": case["numba"], "iter": 200}
     if case["tight"]:
         opts.update(tol_p=1e-10, tol_m=1e-10, tol_res=1e-9, tol_T=1e-9)
@@ -58,6 +60,8 @@ def run_case(case, ctx):
     if outcome == "ok":
         mon_c10(net, obs, opts, passive=case["kind"] == "passive")
         obs.count("runs_" + case["mode"])
+        if any(j["name"] == "c0" for j in spec["junctions"]):
+            obs.count("runs_with_thermally_unsupplied_part")
         secs = obs.counters.get("cooling_sections_forward", 0) + obs.counters.get("cooling_sections_reverse", 0)
         mix = sum(v for k, v in obs.counters.items() if k.startswith("mixing_junctions"))
         rec["nontrivial"] = secs >= 3 and mix >= 1
